@@ -124,9 +124,14 @@ func runDepositAddr(c DepositAddrCase) Outcome {
 		if err == nil {
 			return fail("handout", "v1-schnorr-address-built", "version 1 address handed out for a Schnorr key")
 		}
+		// whatever a depositor might pay to for a Schnorr key: the key-hash form of the same scalar, the
+		// key-path taproot output of the key (its change address), or the version-0 deposit script
 		out0, out1 := world.DepositScriptsV1(world.NewBtcKey(c.KeyIdx, false), c.Magic, c.Evm)
-		if bitcointypes.VerifyDespositScriptV1(key.Public(), c.Magic, c.Evm, out0, out1) == nil {
-			return fail("exclusive", "v1-schnorr-verified", "version 1 verification accepts a Schnorr key")
+		for name, first := range map[string][]byte{"key-hash-of-same-scalar": out0, "taproot-key-path-output": world.SystemScript(key), "version-0-script": world.DepositScriptV0(key, c.Evm)} {
+			o.Evals++
+			if bitcointypes.VerifyDespositScriptV1(key.Public(), c.Magic, c.Evm, first, out1) == nil {
+				return fail("exclusive", "v1-schnorr-verified", "version 1 verification accepts a Schnorr key (first output: %s)", name)
+			}
 		}
 		return o
 	}
